@@ -19,8 +19,11 @@ static int thorough;
 
 /* CB_FORGIVE_EXPIRED: the application accepts exactly ONE specific failure, certificate_expired (what a device without a
  * reliable clock does, and what the repository's own sslTest callback does), and refuses every other alert */
-enum { CB_NONE = 0, CB_STRICT, CB_PERMISSIVE, CB_FORGIVE_EXPIRED, CB_N };
-static const char *cbname[] = { "no-callback", "strict-callback", "permissive-callback", "callback-forgives-only-expiry" };
+/* CB_FORGIVE_EXPIRED_REVAL: the same callback, and the verifier sets VCERTS_FLAG_REVALIDATE_DATES (dates are checked again
+ * at validation time - by a block that runs before the chain is validated) */
+enum { CB_NONE = 0, CB_STRICT, CB_PERMISSIVE, CB_FORGIVE_EXPIRED, CB_FORGIVE_EXPIRED_REVAL, CB_N };
+#define IS_FORGIVE(cb) ((cb) == CB_FORGIVE_EXPIRED || (cb) == CB_FORGIVE_EXPIRED_REVAL)
+static const char *cbname[] = { "no-callback", "strict-callback", "permissive-callback", "callback-forgives-only-expiry", "callback-forgives-only-expiry+revalidate-dates" };
 /* X_DEPTH1/2/3: the verifier limits the path length with validateCertsOpts.max_verify_depth; the good chain is leaf + one
  * intermediate under the root, i.e. a path of three certificates: limits 1 and 2 must refuse it, limit 3 must accept it */
 /* X_NOANCHOR_ROOTSENT: the verifier has NO CA certificate loaded at all and the peer's chain ends with its (self-signed) root */
@@ -55,7 +58,7 @@ static int32 cert_cb(ssl_t *ssl, psX509Cert_t *cert, int32 alert)
     (void) ssl; (void) cert;
     cb_calls++;
     cb_last_alert = alert;
-    if (cb_mode == CB_FORGIVE_EXPIRED)
+    if (IS_FORGIVE(cb_mode))
     {
         return alert == SSL_ALERT_CERTIFICATE_EXPIRED ? 0 : alert;
     }
@@ -267,6 +270,10 @@ static void run_handshake(const c_case_t *c, c_out_t *o)
     memset(&co, 0, sizeof(co));
     so.versionFlag = ver_flag(M->ver);
     co.versionFlag = ver_flag(M->ver);
+    if (c->cb == CB_FORGIVE_EXPIRED_REVAL)
+    {
+        (c->vrole == 0 ? &co : &so)->validateCertsOpts.flags |= VCERTS_FLAG_REVALIDATE_DATES;
+    }
     if (c->x >= X_DEPTH1 && c->x <= X_DEPTH3)
     {
         (c->vrole == 0 ? &co : &so)->validateCertsOpts.max_verify_depth = 1 + c->x - X_DEPTH1;
@@ -390,7 +397,7 @@ static void run_case(void *ctx, mx_result_t *r)
     {
         sym = "valid-chain-within-the-depth-limit-refused";
     }
-    else if (vc && must_reject && c->cb == CB_FORGIVE_EXPIRED)
+    else if (vc && must_reject && IS_FORGIVE(c->cb))
     {
         if (!expiry_only)
         {
@@ -703,7 +710,7 @@ int main(int argc, char **argv)
                         add_case(c);
                     }
                 }
-                if (cb == CB_FORGIVE_EXPIRED)
+                if (IS_FORGIVE(cb))
                 {
                     /* two things wrong at once: an out-of-date certificate AND another defect (the forgiven alert must
                        not stand for the other failure) */
